@@ -64,10 +64,17 @@ func c12PlmnExec(c *core.Ctx, in c12Plmn) {
 	want := refconv.PlmnOctets(in.Mcc, in.Mnc)
 	var got []byte
 	var txt string
+	shared := false
 	pi := core.Try(func() {
-		got = nasConvert.PlmnIDToNas(models.PlmnId{Mcc: in.Mcc, Mnc: in.Mnc})
+		var ok bool
+		got, ok = scribbleRecall(func() []byte { return nasConvert.PlmnIDToNas(models.PlmnId{Mcc: in.Mcc, Mnc: in.Mnc}) })
+		shared = !ok
 		txt = nasConvert.PlmnIDToString(want[:])
 	})
+	if pi == nil && shared {
+		c.FailCase("plmn|PlmnIDToNas|result-shared-between-calls", fmt.Sprintf("PlmnIDToNas(%s,%s): after the caller overwrote the first result a second call returns different octets", in.Mcc, in.Mnc), "plmn", in)
+		return
+	}
 	if pi != nil {
 		c.FailCase("plmn|"+pi.Key(), "panics: "+pi.Msg, "plmn", in)
 		return
